@@ -29,7 +29,9 @@ func main() { hx.Main("c19", runC19) }
 const scratch = "/var/tmp/C19/run"
 
 type Op struct {
-	K   string `json:"k"` // a u r g
+	// a Add, u Update, r Remove, g Find+GetCurrentValue, k UpdateKey(same key), K Find+UpdateCurrentKey(same key),
+	// U Find+UpdateCurrentItem, V Find+UpdateCurrentValue
+	K   string `json:"k"`
 	Key int    `json:"key"`
 	Val int    `json:"val,omitempty"` // index into Prog.Vals
 }
@@ -320,7 +322,7 @@ func runProg(res *hx.Result, p *Prog, idx int) {
 		}
 		e.Rec.Arm()
 		var opTerms []string
-		repWrong, hasRemove, getThenUpdate := false, false, false
+		repWrong, hasRemove, getThenUpdate, keyOnly := false, false, false, false
 		gotKeys := map[int]bool{}
 		lookupID := func(key int, reposition bool) (sop.UUID, bool) {
 			e.Rec.Disarm()
@@ -368,9 +370,54 @@ func runProg(res *hx.Result, p *Prog, idx int) {
 					coqRes = "RErr"
 				}
 				res.Count(fmt.Sprintf("valsize.%s", sizeBucket(len(v))))
-			case "u":
+			case "k", "K":
+				var ok bool
+				var err error
+				if op.K == "k" {
+					ok, err = b.UpdateKey(ctx, op.Key)
+				} else if ok, err = b.Find(ctx, op.Key, false); ok && err == nil {
+					ok, err = b.UpdateCurrentKey(ctx, op.Key)
+				}
+				_, exists := work[op.Key]
+				if err != nil || ok != exists {
+					res.Fail("op-result:updatekey:"+mode, fmt.Sprintf("UpdateKey(%d) = %v,%v but key exists=%v", op.Key, ok, err, exists), p)
+					r.failed = true
+				}
+				if ok {
+					if gotKeys[op.Key] {
+						getThenUpdate = true
+					} else {
+						keyOnly = true
+					}
+					if u, f := lookupID(op.Key, false); f {
+						if _, known := r.canon[u]; !known {
+							r.canon[u] = r.nextID
+							r.keyOf[r.nextID] = op.Key
+							r.nextID++
+						}
+					}
+				}
+				coqOp = fmt.Sprintf("OUpdKey %s", hx.CoqZ(int64(op.Key)))
+				coqRes = "RBool " + hx.CoqBool(ok)
+				if err != nil {
+					coqRes = "RErr"
+				}
+			case "u", "U", "V":
 				v := valueOf(p, op.Val)
-				ok, err := b.Update(ctx, op.Key, v)
+				var ok bool
+				var err error
+				switch op.K {
+				case "u":
+					ok, err = b.Update(ctx, op.Key, v)
+				case "U":
+					if ok, err = b.Find(ctx, op.Key, false); ok && err == nil {
+						ok, err = b.UpdateCurrentItem(ctx, op.Key, v)
+					}
+				default:
+					if ok, err = b.Find(ctx, op.Key, false); ok && err == nil {
+						ok, err = b.UpdateCurrentValue(ctx, v)
+					}
+				}
 				_, exists := work[op.Key]
 				if err != nil || ok != exists {
 					res.Fail("op-result:update:"+mode, fmt.Sprintf("Update(%d) = %v,%v but key exists=%v", op.Key, ok, err, exists), p)
@@ -502,7 +549,8 @@ func runProg(res *hx.Result, p *Prog, idx int) {
 			nontrivial = true
 		}
 		// what a fresh process sees
-		doDump := ti == len(p.Txns)-1 || p.DumpEvery <= 1 || ti%p.DumpEvery == 0
+		// always look after a transaction that meets the precondition of a known defect, so that it is attributed to that transaction
+		doDump := ti == len(p.Txns)-1 || p.DumpEvery <= 1 || ti%p.DumpEvery == 0 || (tx.Commit && trackerEmpty) || (!tx.Commit && p.Opts.ActivelyP && !p.Opts.InNode)
 		var view []string
 		bad := ""
 		var sd *sopx.StoreDump
@@ -556,6 +604,8 @@ func runProg(res *hx.Result, p *Prog, idx int) {
 				sig = "actively-persisted:remove-only-transaction-skipped"
 			case !tx.Commit && p.Opts.ActivelyP && !p.Opts.InNode && getThenUpdate:
 				sig = "actively-persisted:rollback-after-get-update-deletes-committed-value"
+			case !tx.Commit && p.Opts.ActivelyP && !p.Opts.InNode && keyOnly:
+				sig = "actively-persisted:rollback-after-key-only-update-deletes-committed-value"
 			}
 			res.Count("failure." + sig)
 			res.Fail(sig, fmt.Sprintf("after txn %d (commit=%v, tracker empty=%v): %s", ti, tx.Commit, trackerEmpty, bad), p)
@@ -630,6 +680,23 @@ func corpus() []*Prog {
 			ps = append(ps, p)
 		}
 	}
+	// key-only update (UpdateKey / UpdateCurrentKey) of a value that was never read in the transaction, all placements:
+	// T1 add, T2 update (actively persisted: moves the value out of the node), T3 key-only update, T4 again + a get
+	for _, m := range modes {
+		for _, kk := range []string{"k", "K"} {
+			p := &Prog{Name: "key-only-update-" + kk, Opts: mkOpts(m, 4), HashMod: 2, Vals: small(64)}
+			p.Vals[7].Size = 9000
+			p.Txns = []TxnIn{
+				{Ops: []Op{{K: "a", Key: 1, Val: 1}, {K: "a", Key: 2, Val: 2}, {K: "a", Key: 3, Val: 3}}, Commit: true},
+				{Ops: []Op{{K: "u", Key: 1, Val: 7}, {K: "V", Key: 2, Val: 8}}, Commit: true},
+				{Ops: []Op{{K: kk, Key: 1}, {K: kk, Key: 3}, {K: kk, Key: 99}}, Commit: true},
+				{Ops: []Op{{K: kk, Key: 2}, {K: "g", Key: 1}, {K: "U", Key: 3, Val: 9}, {K: kk, Key: 3}}, Commit: true},
+				{Ops: []Op{{K: "g", Key: 1}, {K: "g", Key: 2}, {K: "g", Key: 3}}, Commit: true},
+				{Ops: []Op{{K: kk, Key: 4}, {K: kk, Key: 1}}, Commit: false},
+			}
+			ps = append(ps, p)
+		}
+	}
 	// finding F1: Add(51)+Remove(50) where 50 sits in an interior node: tracker ends empty, commit persists nothing
 	for _, m := range []sopx.StoreOpts{{InNode: true}, {}} {
 		p := &Prog{Name: "finding-lost-commit", Opts: mkOpts(m, 4), HashMod: 2, Vals: small(64)}
@@ -644,6 +711,11 @@ func corpus() []*Prog {
 	p3 := &Prog{Name: "finding-rollback", Opts: mkOpts(sopx.StoreOpts{ActivelyP: true}, 4), HashMod: 2, Vals: small(64)}
 	p3.Txns = []TxnIn{{Ops: []Op{{K: "a", Key: 1, Val: 1}, {K: "a", Key: 2, Val: 2}}, Commit: true}, {Ops: []Op{{K: "u", Key: 1, Val: 3}}, Commit: true}, {Ops: []Op{{K: "g", Key: 1}, {K: "u", Key: 1, Val: 4}}, Commit: false}}
 	ps = append(ps, p3)
+	// finding F4: actively persisted store, key-only update of an out-of-node value in a transaction that also actively
+	// persisted something, then rollback
+	p4 := &Prog{Name: "finding-rollback-key-only", Opts: mkOpts(sopx.StoreOpts{ActivelyP: true}, 4), HashMod: 2, Vals: small(64)}
+	p4.Txns = []TxnIn{{Ops: []Op{{K: "a", Key: 1, Val: 1}, {K: "a", Key: 2, Val: 2}}, Commit: true}, {Ops: []Op{{K: "u", Key: 1, Val: 3}}, Commit: true}, {Ops: []Op{{K: "a", Key: 4, Val: 4}, {K: "k", Key: 1}}, Commit: false}}
+	ps = append(ps, p4)
 	return ps
 }
 
@@ -673,7 +745,6 @@ func genProg(r *hx.Rng, tier string, i int) *Prog {
 	}
 	keyRange := hx.Pick(r, []int{6, 12, 30, 60})
 	avoid := r.Chance(60) // steer around the three known defect patterns so the rest of the space is explored
-	activeNoCache := m.ActivelyP && !m.InNode
 	nt := 2 + r.Intn(5)
 	anchor := 1000
 	for t := 0; t < nt; t++ {
@@ -694,13 +765,14 @@ func genProg(r *hx.Rng, tier string, i int) *Prog {
 			case c < 35 || t == 0 && c < 70:
 				tx.Ops = append(tx.Ops, Op{K: "a", Key: k, Val: r.Intn(nv)})
 			case c < 60:
-				if avoid && activeNoCache && !tx.Commit && got[k] {
-					continue
-				}
 				if avoid && m.ActivelyP && !m.InNode && !tx.Commit && got[k] {
 					continue
 				}
-				tx.Ops = append(tx.Ops, Op{K: "u", Key: k, Val: r.Intn(nv)})
+				kind := hx.Pick(r, []string{"u", "u", "U", "V", "k", "k", "K"})
+				if avoid && m.ActivelyP && !m.InNode && !tx.Commit && (kind == "k" || kind == "K") {
+					kind = "u"
+				}
+				tx.Ops = append(tx.Ops, Op{K: kind, Key: k, Val: r.Intn(nv)})
 			case c < 75:
 				tx.Ops = append(tx.Ops, Op{K: "r", Key: k})
 			default:
@@ -736,7 +808,7 @@ func runC19(cfg *hx.RunCfg) (*hx.Result, error) {
 	}
 	n := cfg.N
 	if n == 0 {
-		n = 36
+		n = 28
 		if cfg.Tier == "thorough" {
 			n = 2000
 		}
